@@ -221,6 +221,9 @@ impl Domain for NodeDomain {
                 // clk-phase <wall> <tasks> <calls> <seed>: `tasks` tasks each make `calls` calls (get_time or
                 // register_ts of a pseudo-random remote stamp near the wall), concurrently, with the wall fixed.
                 let (wall, tasks, calls, seed) = (p_u64(t[1]), p_u64(t[2]), p_u64(t[3]), p_u64(t[4]));
+                // mode 0: remote stamps at most 1 s ahead of the wall (or far beyond the drift: refused);
+                // mode 1: also exactly at / just below the drift boundary (then the wall must not go backwards)
+                let mode = t.get(5).map(|s| p_u64(s)).unwrap_or(0);
                 verif_clock::set_wall_ms(Some(wall));
                 let clock = self.clock.as_ref().expect("clock").clone();
                 let results: Vec<Vec<(u64, u64)>> = runtime().block_on(async move {
@@ -234,7 +237,11 @@ impl Domain for NodeDomain {
                                 s = s.wrapping_mul(6364136223846793005).wrapping_add(1442695040888963407);
                                 let r = s >> 33;
                                 if r % 4 == 0 {
-                                    let off = [0u64, 4, 1000, 4_099_000, 4_100_000, 4_100_004, 10_000_000][(r / 4 % 7) as usize];
+                                    let off = if mode == 1 {
+                                        [0u64, 4, 1000, 4_099_000, 4_100_000, 4_100_004, 10_000_000][(r / 4 % 7) as usize]
+                                    } else {
+                                        [0u64, 4, 1000, 400, 8, 4_100_004, 10_000_000][(r / 4 % 7) as usize]
+                                    };
                                     let back = (r / 64) % 3 == 0;
                                     let ms = if back { wall.saturating_sub(off) } else { wall + off };
                                     let ts = HLCTimestamp::new(Duration::from_millis(ms), (r / 512 % 5) as u16, (200 + r % 3) as u8);
